@@ -53,7 +53,7 @@ type srcInfo struct {
 	start  hcl.Pos
 	ix     *refpos.Index
 	colsOK bool   // every token boundary of the buffer is a well-defined cluster boundary
-	posOK  bool   // no lone CR, no BOM
+	posOK  bool   // no BOM
 	entry  string // ParseConfig | ParseExpression | ParseTemplate
 }
 
@@ -64,7 +64,8 @@ func newSrcInfo(src []byte, start hcl.Pos, entry string) *srcInfo {
 func newSrcInfoIx(src []byte, start hcl.Pos, entry string, ix *refpos.Index) *srcInfo {
 	si := &srcInfo{src: src, start: start, entry: entry}
 	si.ix = ix
-	si.posOK = !si.ix.LoneCR && !si.ix.LeadingBOM
+	// (a lone CR is an ordinary one-column cluster in the native syntax, see lex.go)
+	si.posOK = !si.ix.LeadingBOM
 	si.colsOK = si.posOK
 	if si.colsOK {
 		var toks hclsyntax.Tokens
@@ -75,7 +76,7 @@ func newSrcInfoIx(src []byte, start hcl.Pos, entry string, ix *refpos.Index) *sr
 		}
 		for _, t := range toks {
 			s, e := t.Range.Start.Byte-start.Byte, t.Range.End.Byte-start.Byte
-			if s < 0 || e > len(src) || s > e || !si.ix.ColDefined(s) || !si.ix.ColDefined(e) {
+			if s < 0 || e > len(src) || s > e || !si.ix.NativeColDefined(s) || !si.ix.NativeColDefined(e) {
 				si.colsOK = false
 				break
 			}
@@ -115,10 +116,10 @@ func (si *srcInfo) checkRange(r hcl.Range, what string) *engine.Outcome {
 	for k, p := range []hcl.Pos{r.Start, r.End} {
 		which := []string{"start", "end"}[k]
 		off := p.Byte - si.start.Byte
-		if si.ix.LineDefined(off) && p.Line != si.ix.Line(off) {
+		if si.ix.NativeLineDefined(off) && p.Line != si.ix.Line(off) {
 			return si.fail("c14.range."+what+".line", "%s range %s: line %d at byte %d, counting newlines gives %d", what, which, p.Line, p.Byte, si.ix.Line(off))
 		}
-		if si.colsOK && si.ix.ColDefined(off) && p.Column != si.ix.Col(off) {
+		if si.colsOK && si.ix.NativeColDefined(off) && p.Column != si.ix.Col(off) {
 			return si.fail("c14.range."+what+".column", "%s range %s: column %d at byte %d, counting grapheme clusters gives %d", what, which, p.Column, p.Byte, si.ix.Col(off))
 		}
 	}
@@ -344,6 +345,11 @@ func (w *exprWalker) Enter(node hclsyntax.Node) hcl.Diagnostics {
 		}
 	}
 	w.stack = append(w.stack, fr)
+	// every range-typed field of every node, synthetic or not (ranges.go)
+	if o := w.checkNodeRanges(node, &fr); o != nil {
+		w.out = o
+		return nil
+	}
 	if fr.role == roleSynthetic {
 		return nil
 	}
